@@ -1,3 +1,7 @@
 -- Root of the library: everything `./check --setup` pre-builds.
-import Xrfmv.Props.C03
 import Xrfmv.Props.C02
+import Xrfmv.Props.C03
+import Xrfmv.Props.C06
+import Xrfmv.Props.C09
+import Xrfmv.Props.C15
+import Xrfmv.Props.C16
